@@ -213,6 +213,11 @@ func c24(c *engine.Ctx) {
 		}
 		c.Check(okc, "C24.R2", "handler/close-done", s.closeDefer.Pos(), "the winning handler must close done before every return, and only the winner may close it")
 	}
+	// the outcome of decoding is the call's outcome: the handler must store the Decode result in the
+	// variable Do returns after done (a swallowed decode error makes Do report success with a
+	// half-written Output)
+	n2++
+	c.Check(s.resCell != nil, "C24.R2", "handler/decode-result-stored", h.Pos(), "the result of req.Output.Decode must be stored into the result variable of Do")
 	c.Floor("C24.R2", 4, n2)
 
 	// ---- R3: no write after return
